@@ -2,7 +2,7 @@
    Hand model of
      func_adl_xAOD/common/cpp_vars.py            : cpp_string_literal
      func_adl_xAOD/common/ast_to_cpp_translator.py: query_ast_visitor.visit_Constant
-     func_adl_xAOD/common/cpp_ast.py              : process_ast_node (argument substitution, lines 244-266)
+     func_adl_xAOD/common/cpp_ast.py              : replace_whole_words, process_ast_node (argument substitution)
      func_adl_xAOD/{atlas/xaod,cms/aod,cms/miniaod}/event_collections.py : get_running_code, token initialiser
      func_adl_xAOD/{atlas/xaod,cms/aod,cms/miniaod}/query_ast_visitor.py : book_*_ttree.emit, *_ttree_fill.emit
      func_adl_xAOD/atlas/xaod/jets.py             : getAttributeFloat code line
@@ -100,7 +100,7 @@ Definition strip_minus (s : string) : bool * string :=
 Definition py_float_finite (t : string) : bool := py_finite_body (snd (strip_minus t)).
 Definition py_float_repr (t : string) : bool := py_float_finite t || nonfinite_repr t.
 
-(* ---------- cpp_ast.py: process_ast_node, lines 244-266 ---------- *)
+(* ---------- cpp_ast.py: replace_whole_words / process_ast_node ---------- *)
 (* \w on bytes: ASCII letters, digits, underscore; bytes >= 128 stand for non-ASCII letters *)
 Definition is_word (c : ascii) : bool := is_idchar c || (128 <=? nat_of_ascii c)%nat.
 Fixpoint starts_with (w s : string) : option string :=
@@ -118,29 +118,35 @@ Definition literal_at (pre line : string) : option (literal * string) :=
 Definition boundary_after (rest : string) : bool :=
   match rest with EmptyString => true | String c _ => negb (is_word c) end.
 
-(* re.sub(rf"\b{re.escape(w)}\b", lambda _: d, s) for a parameter name w made of word characters:
-   leftmost non-overlapping whole-word occurrences of w are replaced by d, d is not rescanned *)
-Fixpoint replace_word_aux (w d : string) (skip : nat) (prev_word : bool) (s : string) : string :=
+(* the first (name, text) pair whose name stands at the start of s as a whole word: regex alternation
+   \b(?:n1|n2|...)\b tries the names in list order (a name listed twice: the first wins) *)
+Fixpoint match_name (repl : list (string * string)) (s : string) : option (string * nat) :=
+  match repl with
+  | [] => None
+  | (w, d) :: more =>
+    match starts_with w s with
+    | Some rest => if boundary_after rest then Some (d, String.length w) else match_name more s
+    | None => match_name more s
+    end
+  end.
+
+(* mirrors cpp_ast.py: replace_whole_words -- one pass, leftmost non-overlapping whole-word occurrences of
+   any parameter name (names are made of word characters) are replaced, the inserted text is not rescanned *)
+Fixpoint replace_words_aux (repl : list (string * string)) (skip : nat) (prev_word : bool) (s : string) : string :=
   match s with
   | EmptyString => EmptyString
   | String c r =>
     match skip with
-    | S k => replace_word_aux w d k (is_word c) r
+    | S k => replace_words_aux repl k (is_word c) r
     | O =>
-      match (if prev_word then None else starts_with w s) with
-      | Some rest =>
-        if boundary_after rest
-        then d +++ replace_word_aux w d (String.length w - 1) (is_word c) r
-        else String c (replace_word_aux w d 0 (is_word c) r)
-      | None => String c (replace_word_aux w d 0 (is_word c) r)
+      match (if prev_word then None else match_name repl s) with
+      | Some (d, n) => d +++ replace_words_aux repl (n - 1) (is_word c) r
+      | None => String c (replace_words_aux repl 0 (is_word c) r)
       end
     end
   end.
-Definition replace_word (w d s : string) : string := replace_word_aux w d 0 false s.
-
-(* for src, dest in repl_list: l_s = re.sub(...)   -- sequential *)
 Definition subst_line (repl : list (string * string)) (line : string) : string :=
-  fold_left (fun l sd => replace_word (fst sd) (snd sd) l) repl line.
+  match repl with [] => line | _ => replace_words_aux repl 0 false line end.
 
 Inductive backend := Atlas | CmsAod | CmsMiniaod.
 
